@@ -40,6 +40,11 @@ E1 == << Doc("E1", "enum-mb-max1", [type |-> "string", enum |-> <<JS(<<"<e9>">>)
          Doc("E1", "closed-nested", SObjClosed(Props2("in", SObjClosed(Props1("q", SInt), {"q"}), "s", [type |-> "string", minLength |-> 1]), {"in"})),
          Doc("E1", "tuple-of-constrained", STuple(<<[type |-> "string", maxLength |-> 1], SInt>>)),
          Doc2("E1", "prop-of-enum", SObj(Props1("c", SRef("C")), {"c"}), "C", EnumS(<<JS(<<"r">>), JS(<<"g">>)>>)),
+         (* enumerated strings under a pattern and a length bound: both filter the values *)
+         Doc("E1", "enum-pattern-max", [type |-> "string", enum |-> <<JS(<<"a","b">>), JS(<<"a","b","c">>), JS(<<"a","b","c","d","e","f">>), JS(<<"x","y">>)>>,
+                                        pattern |-> "^ab", maxLength |-> 3]),
+         Doc("E1", "enum-pattern-min", [type |-> "string", enum |-> <<JS(<<"a">>), JS(<<"a","a","a">>), JS(<<"b","b","b">>)>>,
+                                        pattern |-> "^a+$", minLength |-> 3]),
          Doc("E1", "pattern-min", [type |-> "string", pattern |-> "^a+$", minLength |-> 2]) >>
 
 (* every combination of minLength, maxLength (0..3 or absent, min <= max) and pattern (or none) *)
